@@ -259,7 +259,14 @@ fn list_obs(g: &List<i32, u32>, rng: &mut Rng, log: &mut Log) {
     let n = g.node_count();
     let per: Vec<Value> = (0..n).map(|a| {
         let a32 = a as u32;
+        // reverse iteration driven externally (next_back), internally (rfold through rev().fold) and by last()
+        let mut nb = g.neighbors(a32);
+        let mut rev_nb = vec![];
+        while let Some(x) = nb.next_back() { rev_nb.push(x as usize); }
+        let rev_fold: Vec<usize> = g.neighbors(a32).rev().fold(vec![], |mut v, x| { v.push(x as usize); v });
+        let rev_last: Vec<usize> = g.neighbors(a32).rev().last().map(|x| vec![x as usize]).unwrap_or_default();
         json!({"a": a, "nbr": g.neighbors(a32).map(|x| x as usize).collect::<Vec<_>>(),
+               "nbr_rev": [rev_nb, rev_fold, rev_last],
                "deg": g.edge_indices_from(a32).count(),
                "eo": g.edge_indices_from(a32).map(|i| { let (s, t) = g.edge_endpoints(i).unwrap(); json!([s, t, *g.edge_weight(i).unwrap()]) }).collect::<Vec<_>>()})
     }).collect();
@@ -273,7 +280,9 @@ fn list_obs(g: &List<i32, u32>, rng: &mut Rng, log: &mut Log) {
     let erefs: Vec<Value> = g.edge_references().map(|e| json!([e.source(), eidx_rank(g, e.id()), e.target(), *e.weight()])).collect();
     let eidx: Vec<Value> = g.edge_indices().map(|i| { let (s, t) = g.edge_endpoints(i).unwrap(); json!([s, eidx_rank(g, i), t, *g.edge_weight(i).unwrap()]) }).collect();
     let erefs_field = if erefs == eidx { json!(erefs) } else { json!([["edge_indices and edge_references disagree", erefs.len(), eidx.len()]]) };
+    let nidx_rfold: Vec<usize> = g.node_indices().rev().fold(vec![], |mut v, x| { v.push(x as usize); v });
     log.ev(json!({"op":"obs","nc":n,"ec":g.edge_count(),"directed":true,
+        "nidx_rfold": nidx_rfold,
         "nodes": g.node_indices().map(|i| json!([i, 0])).collect::<Vec<_>>(),
         "edges": g.edge_references().map(|e| json!([e.source(), e.target(), *e.weight()])).collect::<Vec<_>>(),
         "erefs": erefs_field, "per": per, "pairs": pairs}));
